@@ -234,7 +234,7 @@ Fixpoint is_prefix (a b : list Z) : bool :=
 (* a case of the Pool family: the trace, the user-function calls in invocation order, whether the
    harness process crashed in this case (library panic / goroutines that never exit), and how the
    schedule was produced (0 random, 1 consumer keeps up, 2 idle then burst, 3 absent consumer, 4 enumerated, 5 steady, 9 free-running pseudo-trace) *)
-Record case := mkC { pc : pcase; calls : list Z; crashed : bool; sched : N }.
+Record case := mkC { pc : pcase; calls : list Z; crashed : bool; sched : N; ctimes : list N (* virtual time of each user-function call *) }.
 
 (* free-running cases (sched = 9) are pseudo-traces of complete runs: only the oracle judges them *)
 Definition mismatches (cs : list case) : list N :=
